@@ -45,6 +45,7 @@ From Crusta Require Import Spec.AF Sat.Cnf Sat.Prog Model.Encoders Model.Graph M
 From Crusta Require Import Proofs.EncSpec Proofs.SolverBasics Proofs.ConfigIndep.
 From Crusta Require Import Proofs.TopBase Proofs.TopMax Proofs.SolverTop Proofs.Corollaries.
 From Crusta Require Proofs.SolverWholeEx.
+From Crusta Require Proofs.Clauses.
 Import ListNotations.
 Open Scope prog_scope.
 
@@ -162,6 +163,47 @@ Proof.
   split; eexists; vm_compute; reflexivity.
 Qed.
 
+(* ---- the sentences of the property text, one dimension at a time (Proofs/Clauses.v); each is
+   an instance of C06_status_function_of_semantics ---- *)
+
+(* "the same whichever SAT encoding (aux_var, exp, hybrid) is selected": everything equal but the
+   encoder *)
+Theorem C06_encoding_independent : forall g F, view_good g F ->
+  forall oracle thr, valid_oracle oracle -> 1 <= thr ->
+  forall s q e1 e2 al fuel cert st0 b1 c1 t1 b2 c2 t2,
+  q <> QSE -> supported s q -> enc_ok s e1 -> enc_ok s e2 -> al_ok s q F al ->
+  run_query oracle thr fuel s q cert e1 g al st0 = Done (OAcc b1 c1) t1 ->
+  run_query oracle thr fuel s q cert e2 g al st0 = Done (OAcc b2 c2) t2 ->
+  b1 = b2.
+Proof. exact Clauses.encoding_independent. Qed.
+
+(* the three encodings named in the text are admissible for every solver type but STG (whose
+   encoders are the conflict-free based AuxCf / ExpCf) *)
+Theorem C06_three_encodings_admissible : forall s, s <> STG ->
+  enc_ok s AuxCo /\ enc_ok s ExpCo /\ enc_ok s HybCo.
+Proof. exact Clauses.three_encodings_admissible. Qed.
+
+(* "whichever SAT backend is used": in the model a backend is its answers (any valid oracle) and
+   its n_vars discipline (CadicalLike / BufferedLike); everything else equal *)
+Theorem C06_backend_independent : forall g F, view_good g F ->
+  forall o1 o2 d1 d2 thr, valid_oracle o1 -> valid_oracle o2 -> 1 <= thr ->
+  forall s q e al fuel cert b1 c1 t1 b2 c2 t2,
+  q <> QSE -> supported s q -> enc_ok s e -> al_ok s q F al ->
+  run_query o1 thr fuel s q cert e g al (init_st d1) = Done (OAcc b1 c1) t1 ->
+  run_query o2 thr fuel s q cert e g al (init_st d2) = Done (OAcc b2 c2) t2 ->
+  b1 = b2.
+Proof. exact Clauses.backend_independent. Qed.
+
+(* "whether or not a certificate is requested" *)
+Theorem C06_certificate_flag_independent : forall g F, view_good g F ->
+  forall oracle thr, valid_oracle oracle -> 1 <= thr ->
+  forall s q e al fuel st0 b1 c1 t1 b2 c2 t2,
+  q <> QSE -> supported s q -> enc_ok s e -> al_ok s q F al ->
+  run_query oracle thr fuel s q true e g al st0 = Done (OAcc b1 c1) t1 ->
+  run_query oracle thr fuel s q false e g al st0 = Done (OAcc b2 c2) t2 ->
+  b1 = b2.
+Proof. exact Clauses.certificate_flag_independent. Qed.
+
 Print Assumptions C06_complete_query_config_independent_partial.
 Print Assumptions C06_stable_component_backend_independent_partial.
 Print Assumptions C06_status_function_of_semantics.
@@ -169,3 +211,7 @@ Print Assumptions C06_query_sequence_correct.
 Print Assumptions C06_query_sequence_status.
 Print Assumptions C06_query_sequence_independent.
 Print Assumptions C06_query_sequence_vs_alone.
+Print Assumptions C06_encoding_independent.
+Print Assumptions C06_three_encodings_admissible.
+Print Assumptions C06_backend_independent.
+Print Assumptions C06_certificate_flag_independent.
